@@ -445,6 +445,9 @@ def _messaging(which):
                 return
         E.cover('messages-processed')
         P = E.prove
+        ms = t.attrs['_incoming_frame_queue'].attrs['maxsize']
+        P('messaging:the_incoming_queue_never_refuses_a_frame[put_nowait cannot fail for any backlog: the queue is unbounded]',
+          isinstance(ms, int) and ms <= 0)
         P('messaging:every_binary_message_parsed_whole_once_in_order_in_message_mode',
           len(fed) == len(binary) and all(f[0] is b and f[1] == 0 for f, b in zip(fed, binary)))
         q = t.attrs['_incoming_frame_queue'].attrs['_queue']
